@@ -358,4 +358,102 @@ class StmtEngine(Engine):
     return {'obs': obs, 'fails': fails[:2], 'nontrivial': bool(case.get('nt')) or case['kind'] == 'malformed', 'tags': tags}
 
 
-ENGINES = [StmtEngine()]
+def lexer_supported(s):
+  """the class of texts coq/Model/Lexer.v models (Lexer.supported): 7-bit printable ASCII and newline, no f-string prefix"""
+  for ch in s:
+    if not (ch == '\n' or 32 <= ord(ch) <= 126):
+      return False
+  for i in range(len(s)):
+    if s[i] in 'fF':
+      if s[i + 1:i + 2] in ('"', "'"):
+        return False
+      if s[i + 1:i + 2] in ('r', 'R') and s[i + 2:i + 3] in ('"', "'"):
+        return False
+  return True
+
+
+class LexEngine(Engine):
+  """characters -> tokens: coq/Model/Lexer.v against the real tokenizer (types, texts, exact positions, the error token)
+  on the config texts of the statement engine, both layouts, and character-level mutations of them"""
+  name = 'lexer'
+  imports = 'Model.Parser Model.Lexer Model.LexerEngine'
+  run_fn = 'run_lex'
+
+  def budget(self, tier):
+    return 700 if tier == 'quick' else 30000
+
+  def corpus(self):
+    return [{'text': t} for t in MALFORMED] + [{'text': t} for t in (
+        '', '\n', 'a.b = 1', 'a.b = (1,\n  2)\n', 's/a.b:\n  x = 1\n  y = [1,\n 2]\nz.w = 3\n', 'a = """x\ny"""\n', "a = 'x\\\ny'\n",
+        'a = 1 \\\n  + 2\n', '  a = 1\n b = 2\n', 'a = (1\n', 'a = 1__0\n', 'a = $\n', "a = f'x'\n", 'a = \t1\n', 'a = 0x1F 0o7 0b1 1e5 1.5j\n')]
+
+  def gen(self, rng, tier):
+    base = StmtEngine().gen(rng, tier)
+    text = rng.choice(base['layouts'])
+    if rng.random() < 0.3 and text:
+      chars = "[](){},:'\"+-*1a. \\#\n_e%@/=\t$!"
+      for _ in range(rng.randint(1, 3)):
+        i = rng.randrange(len(text) + 1)
+        r = rng.random()
+        text = text[:i] + (rng.choice(chars) if r < 0.6 else '') + text[i + (1 if r >= 0.4 else 0):]
+    if rng.random() < 0.85:
+      # stay inside the modelled class most of the time: blanks for tabs, ASCII for the rest, no f-string prefixes
+      text = ''.join(ch if (ch == '\n' or 32 <= ord(ch) <= 126) else (' ' if ch == '\t' else 'x') for ch in text)
+      import re as _re
+      text = _re.sub(r"[fF]([rR]?['\"])", r"g\1", text)
+    return {'text': text}
+
+  def to_coq(self, case):
+    return C.cstr(case['text'])
+
+  def shrink(self, case):
+    t = case['text']
+    for i in range(len(t)):
+      yield {'text': t[:i] + t[i + 1:]}
+
+  def impl(self, case):
+    text = case['text']
+    if not P.coq_safe(text):
+      text = text.replace('\x00', '0').replace('\r', ' ')
+      case['text'] = text
+    if not lexer_supported(text):
+      return {'obs': T('Unsupported'), 'fails': [], 'nontrivial': False, 'tags': ['outside-class']}
+    toks = P.tokens_of(text)
+    obs = [T(t[0], t[1], t[2], t[3], t[4], t[5]) for t in toks]
+    kinds = {t[0] for t in toks}
+    tags = ['error' if 'TERR' in kinds else 'error-free'] + [k for k in ('INDENT', 'COMMENT') if k in kinds]
+    return {'obs': obs, 'fails': [], 'nontrivial': len(toks) >= 8 and ('INDENT' in kinds or '\\\n' in text or any(t[0] == 'NL' for t in toks)),
+            'tags': tags}
+
+
+class TextEngine(StmtEngine):
+  """characters -> statements with NO tokenizer oracle: the parser model runs on the tokens of coq/Model/Lexer.v (only what
+  a NAME / NUMBER / STRING text means is still taken from ast.literal_eval); compared with the real ConfigParser"""
+  name = 'parser-text'
+  imports = 'Model.Parser Model.Lexer Model.LexerEngine'
+  run_fn = 'run_text'
+
+  def budget(self, tier):
+    return 500 if tier == 'quick' else 20000
+
+  def gen(self, rng, tier):
+    base = super().gen(rng, tier)
+    return {'kind': base['kind'], 'stmts': base['stmts'], 'layouts': [rng.choice(base['layouts'])], 'nt': base.get('nt', True)}
+
+  def to_coq(self, case):
+    text = case['layouts'][0]
+    toks = P.tokens_of(text)
+    orc = P.oracle_for(toks)
+    o = C.clist(['(%s, %s)' % (C.cstr(k), 'None' if v is None else '(Some %s)' % C.out(v)) for k, v in orc.items()])
+    return '(%s, %s)' % (o, C.cstr(text))
+
+  def impl(self, case):
+    text = case['layouts'][0]
+    if not P.coq_safe(text) or not lexer_supported(text):
+      return {'obs': T('Unsupported'), 'fails': [], 'nontrivial': False, 'tags': ['outside-class']}
+    r = super().impl(case)
+    r['obs'] = r['obs'][0]
+    return r
+
+
+ENGINES = [StmtEngine(), LexEngine(), TextEngine()]
